@@ -202,6 +202,17 @@ def _chaos_corrupt(evs, profile):
     return None
 
 
+def _fallback_corrupt(evs, profile):
+    out = [dict(e) for e in evs]
+    # a successful inner response is shown as replaced by the fallback value
+    for e in out:
+        if e.get('e') == 'poll' and e.get('res') == 'ok' and e.get('val', 9999) < 7000:
+            e['val'] = 7000
+            e['rq'] = 0
+            return out
+    return None
+
+
 COMPONENTS = {
     'bulkhead': {
         'spec_files': ['Bulkhead.tla', 'MC_Bulkhead.tla', 'Trace_Bulkhead.tla'],
@@ -336,6 +347,15 @@ COMPONENTS = {
         'random': {'quick': [{'runs': 0}], 'thorough': [{'runs': 0}]},
         'corrupt': _chaos_corrupt,
     },
+    'fallback': {
+        'spec_files': ['Fallback.tla', 'MC_Fallback.tla', 'Trace_Fallback.tla'],
+        'mc': {'quick': [{'cfg': 'MC_Fallback.cfg', 'module': 'MC_Fallback'}], 'thorough': [{'cfg': 'MC_Fallback.cfg', 'module': 'MC_Fallback'}]},
+        'gen': {'cfg': 'Gen_Fallback.cfg', 'module': 'MC_Fallback', 'num': {'quick': 500, 'thorough': 5000}, 'depth': 30},
+        'trace_module': 'Trace_Fallback', 'trace_cfg_tmpl': 'Trace_Fallback.cfg.tmpl',
+        'harness': 'fallback',
+        'random': {'quick': [{'runs': 1500}], 'thorough': [{'runs': 20000}]},
+        'corrupt': _fallback_corrupt,
+    },
 }
 
 PROPS = {
@@ -359,6 +379,7 @@ PROPS = {
     'C11': {'comp': 'coalesce', 'profile': 'full'},
     'C18': {'comp': 'health', 'profile': 'full'},
     'C19': {'comp': 'chaos', 'profile': 'full'},
+    'C17': {'comp': 'fallback', 'profile': 'full'},
     'C02': {'comp': 'ratelimiter', 'profile': 'ProfC02', 'drift_profile': 'ProfAll'},
     'C15': {'comp': 'ratelimiter', 'profile': 'ProfC15', 'drift_profile': 'ProfAll'},
 }
